@@ -86,14 +86,18 @@ def run_property(prop, specs, tier="quick", seed=0, registry=None, extra_assumpt
     from .contracts import configurations
 
     items = []
+    total_cfgs = sum(len(list(configurations(s))) for s in specs.values())
     for k, s in specs.items():
+        if total_cfgs < 8:
+            s.setdefault("solve_jobs", max(1, 16 // max(1, total_cfgs)))  # few configurations: parallelise the VCs instead
         ncfg = len(list(configurations(s)))
         items += [(k, ci) for ci in range(ncfg)] + [(k, "cross-check")]
     nproc = max(1, min(int(os.environ.get("VERIF_JOBS", "16")), len(items)))
     if nproc > 1 and not os.environ.get("VERIF_SERIAL"):
-        ctx = mp.get_context("fork")
-        with ctx.Pool(nproc) as pool:
-            parts = pool.map(_verify_one, items, chunksize=1)
+        from concurrent.futures import ProcessPoolExecutor
+
+        with ProcessPoolExecutor(nproc, mp_context=mp.get_context("fork")) as ex:  # non-daemonic: may fork solvers
+            parts = list(ex.map(_verify_one, items))
     else:
         parts = [_verify_one(it) for it in items]
     results = [_merge([p for p in parts if p["key"] == k]) for k in specs]
